@@ -287,7 +287,7 @@ def simulate(ctx, i, rng, case):
     else:
         rules = [make_rule(rng, spec, kind, sim=True)]
     spec['rules'] = rules
-    rerun = (i // 2) % 3 == 1
+    rerun = rng.random() < 0.35
     if rerun:
         # rules are long-lived objects: the same ones are used for a second simulation after reset
         run0 = spec['schedule'][0]
